@@ -1303,9 +1303,12 @@ def _self_method_call(c: ast.AST) -> str | None:
     return None
 
 
-def inline_methods(fn: ast.AST, methods: dict[str, ast.AST], exclude: t.Collection[str] = (), nested: bool = False) -> tuple[ast.AST, set[str]]:
+def inline_methods(fn: ast.AST, methods: dict[str, ast.AST], exclude: t.Collection[str] = (), nested: bool = False, functions: dict[str, ast.AST] | None = None, guard_returns: bool = False) -> tuple[ast.AST, set[str]]:
+    """``functions``: module-level functions that may be expanded the same way when called as a statement (`f(a, b)`);
+    ``guard_returns``: a helper whose bare `return`s are guard clauses is expanded too (eliminate_bare_returns)."""
     inlined: set[str] = set()
     new_fn = clone(fn)
+    caller_names = {x.id for x in ast.walk(fn) if isinstance(x, ast.Name) and isinstance(x.ctx, (ast.Store, ast.Del))} | {a.arg for a in ast.walk(fn) if isinstance(a, ast.arg)}
 
     def expr_helper(name: str) -> ast.AST | None:
         m = methods.get(name)
@@ -1319,14 +1322,30 @@ def inline_methods(fn: ast.AST, methods: dict[str, ast.AST], exclude: t.Collecti
     def stmt_helper(c: ast.Call) -> list[ast.stmt] | None:
         name = _self_method_call(c)
         m = methods.get(name or "")
-        if m is None or name in exclude or not _plain_method(m) or c.keywords or any(isinstance(a, ast.Starred) for a in c.args):
+        is_fn = False
+        if m is None and functions and isinstance(c.func, ast.Name) and c.func.id in functions and c.func.id not in caller_names:
+            name, m, is_fn = c.func.id, functions[c.func.id], True
+            a_ = m.args  # type: ignore[attr-defined]
+            if not isinstance(m, ast.FunctionDef) or m.decorator_list or a_.vararg or a_.kwarg or a_.kwonlyargs or a_.posonlyargs or a_.defaults:
+                return None
+        if m is None or name in exclude or (not is_fn and not _plain_method(m)) or c.keywords or any(isinstance(a, ast.Starred) for a in c.args):
             return None
-        params = [a.arg for a in m.args.args[1:]]  # type: ignore[attr-defined]
+        params = [a.arg for a in (m.args.args if is_fn else m.args.args[1:])]  # type: ignore[attr-defined]
         if len(params) != len(c.args):
             return None
         body = _strip_doc(m.body)  # type: ignore[attr-defined]
         if body and isinstance(body[-1], ast.Return) and body[-1].value is None:
             body = body[:-1]
+        if guard_returns and any(isinstance(x, ast.Return) for st in body for x in _walk_same_scope(st)):
+            flat = eliminate_bare_returns(list(body))
+            if flat is None:
+                return None
+            body = flat
+        if is_fn:
+            # free names of a module-level function are globals: they must not be locals of the caller
+            own_ = set(params) | {x.id for st in body for x in ast.walk(st) if isinstance(x, ast.Name) and isinstance(x.ctx, (ast.Store, ast.Del))}
+            if any(isinstance(x, ast.Name) and x.id not in own_ and x.id in caller_names for st in body for x in ast.walk(st)):
+                return None
         for st in body:
             for x in ast.walk(st):
                 if isinstance(x, (ast.Return, ast.Yield, ast.YieldFrom, ast.Await, ast.Global, ast.Nonlocal, ast.FunctionDef, ast.AsyncFunctionDef, ast.Lambda, ast.ClassDef)):
